@@ -125,6 +125,21 @@ def o_strip_reuse(inp):
                 ok2 = (got2 == _enclose_ref(str(v2), d)) if e else (got2 == v2 or got2 == str(v2))
                 if not ok2:
                     return (("reuse:unrecorded-numeric-field:integer-rule", f"{k2} = {v2!r} added after the removal -> {got2!r} (reuse, default {d!r}, enclose_integers={e})", "enclosed iff enclose_integers"), nontrivial, cls)
+    # further cycles on the very same objects, in place: what was restored is stripped (one layer, kind recorded)
+    # and restored again - the laws hold for every removal and addition, not only for the first on a fresh block
+    cur = rem
+    for cycle in (2, 3):
+        add = AddEnclosingMiddleware(reuse_previous_enclosing=True, enclose_integers=True, default_enclosing="{" if cycle == 2 else '"', allow_inplace_modification=True)
+        cur = add.transform(cur)
+        if _get(cur, kind, key) != v.strip():
+            return ((f"cycle:not-restored", f"cycle {cycle}: {v!r} -> {_get(cur, kind, key)!r}", repr(v.strip())), nontrivial, cls)
+        cur = RemoveEnclosingMiddleware(allow_inplace_modification=True).transform(cur)
+        if _get(cur, kind, key) != want:
+            return ((f"cycle:strip", f"cycle {cycle}: {v!r} -> {_get(cur, kind, key)!r}", repr(want)), nontrivial, cls)
+        meta = cur.blocks[0].parser_metadata.get("removed_enclosing")
+        gkind = meta if kind == "string" else (meta or {}).get(key, (meta or {}).get(key.lower()))
+        if gkind != wkind:
+            return (("cycle:recorded-kind", f"cycle {cycle}: {v!r}: {meta!r}", repr(wkind)), nontrivial, cls)
     return (None, nontrivial, cls)
 
 
